@@ -53,8 +53,13 @@ def c10_r1(ctx):
     # writer info tuple
     wtuple = None
     for c in norm.calls_in(wb.node):
-        if norm.call_name(c) == "dumps" and c.args and isinstance(c.args[0], ast.Tuple) and len(c.args[0].elts) >= 5:
-            wtuple = c.args[0]
+        if norm.call_name(c) == "dumps" and c.args:
+            a0 = c.args[0]
+            if isinstance(a0, ast.Name):        # the tuple was given a name first
+                a0 = norm.inline_defs(a0, wb.node)
+            if isinstance(a0, ast.Tuple) and len(a0.elts) >= 5:
+                wtuple = a0
+                wdump_arg = c.args[0]
     if wtuple is None:
         raise AnalysisError("block info tuple not found in _write_block")
     # the compression field: the value handed to compress() as its level / tested before compressing
@@ -78,14 +83,19 @@ def c10_r1(ctx):
     for st in ast.walk(gt.node):
         if isinstance(st, ast.Assign) and isinstance(st.value, ast.Call) and norm.call_name(st.value) == "byte_to_length" and st.value.args:
             b2l[norm.canon(st.value.args[0])] = norm.canon(st.targets[0])
+    # ... or from the attribute it is stored into unchanged (`maxid = ...; self._maxid = maxid`)
+    stored_as = {}
+    for st in ast.walk(gt.node):
+        if isinstance(st, ast.Assign) and len(st.targets) == 1 and isinstance(st.value, ast.Name) and norm.canon(st.targets[0]).startswith("self."):
+            stored_as.setdefault(st.value.id, norm.canon(st.targets[0]))
     rroles = []
     for e in unpack.elts:
         t = norm.canon(e)
-        rroles.append(_role_r(b2l.get(t, t)))
+        rroles.append(_role_r(b2l.get(t) or stored_as.get(t, t)))
     ctx.ob("W3PostingsWriter._write_block <-> W3LeafMatcher._goto", wroles == rroles and not any(r.startswith("?") for r in wroles),
            "block info fields agree in number, order and meaning", detail="writer %s ; reader %s" % (wroles, rroles), loc=wb.loc)
     # byte_to_length applied to exactly the fields that went through length_to_byte
-    locs = [norm.canon(e) for e in unpack.elts if isinstance(e, ast.Name)]
+    locs = [norm.canon(e) for e in unpack.elts if isinstance(e, ast.Name) and norm.canon(e) not in stored_as]
     ctx.ob(gt, sorted(b2l.values()) == ["self._maxlength", "self._minlength"] and sorted(b2l) == sorted(locs) and len(locs) == 2,
            "min/max length bytes are decoded with byte_to_length into _minlength/_maxlength", detail=str(sorted(b2l.values())))
     # last-block marker
@@ -131,7 +141,7 @@ def c10_r1(ctx):
     wcalls = [c for c in norm.calls_in(wb.node) if norm.canon(norm.receiver(c) or ast.Name(id=""), norm.aliases(wb.node)) == "self._postfile"
               and norm.call_name(c).startswith("write") and "MAGIC" not in norm.canon(c)]
     info_ok = any(WA.eq(st, "infobytes = dumps(ANY, 2)") for st in wsts
-                  if isinstance(st, ast.Assign) and isinstance(st.value, ast.Call) and st.value.args and st.value.args[0] is wtuple)
+                  if isinstance(st, ast.Assign) and isinstance(st.value, ast.Call) and st.value.args and st.value.args[0] is wdump_arg)
     ok = len(wcalls) == 3 and info_ok and WA.has(wsts, "blocklength = len(infobytes) + len(databytes)") and \
         norm.call_name(wcalls[0]) == "write_int" and len(wcalls[0].args) == 1 and WA.name("blocklength") in norm.names_in(wcalls[0].args[0]) and \
         WA.eq(wcalls[1], "self._postfile.write(infobytes)", al=True) and \
@@ -147,7 +157,7 @@ def c10_r1(ctx):
             dtuple = [norm.canon(e) for e in t_.elts]
     want = {"_read_ids": ("self._mini_ids()", 0), "_read_weights": ("self._mini_weights()", 1), "_read_values": ("self._mini_values()", 2)}
     ok = dtuple is not None and len(dtuple) == 3
-    dumped = [norm.deep_canon(c.args[0], wb.node) for c in norm.calls_in(wb.node) if norm.call_name(c) == "dumps" and c.args and c.args[0] is not wtuple]
+    dumped = [norm.deep_canon(c.args[0], wb.node) for c in norm.calls_in(wb.node) if norm.call_name(c) == "dumps" and c.args and c.args[0] is not wdump_arg]
     ok = ok and dumped == ["(%s)" % ", ".join(dtuple or [])]
     detail = []
     for rn, (wexpr, idx) in want.items():
